@@ -646,7 +646,7 @@ fn header_lie_response(lie: &(&'static str, &'static str, Vec<Vec<u8>>, bool, bo
 fn server_engine(rep: &Report, seed: u64, tier: Tier) {
     let n = tier.pick(900, 6000);
     let hlies = Arc::new(header_lies());
-    let res = par_map(n, crate::util::ncpu(), |i| {
+    let case = |i: usize, timeout_s: u64| {
         let mut rng = Rng::new(seed).fork(0x1510 + i as u64);
         let comp = *rng.pick(&[(0u32, 0u32), (3, 4), (2, 3)]);
         let kind = rng.below(3);
@@ -708,21 +708,51 @@ fn server_engine(rep: &Report, seed: u64, tier: Tier) {
         run.use_shim = false;
         run.rlimit_cpu_s = Some(8);
         run.rlimit_as = Some(6 << 30);
+        run.timeout = std::time::Duration::from_secs(timeout_s);
         let o = proc::run(&run);
+        let requests = server.take_log().len();
         drop(server);
         scn::cleanup(&dir, false);
         let kind = match o.exit {
-            Exit::Timeout => return (desc, None, true),
+            Exit::Timeout => return (desc, None, true, o.cpu_ms, requests),
             Exit::Code(101) => Some("panic"),
             Exit::Signal(x) if x == libc::SIGXCPU => Some("cpu-limit(unbounded loop)"),
             Exit::Signal(_) => Some("abort/signal"),
             Exit::Code(_) => if o.maxrss_kb > RSS_BASE_KB { Some("rss-unbounded") } else { None },
         };
-        (desc, kind, false)
-    });
+        (desc, kind, false, o.cpu_ms, requests)
+    };
+    let res = par_map(n, crate::util::ncpu(), |i| (i, case(i, 25)));
     let mut seen_sig = std::collections::HashSet::new();
-    for (desc, kind, timeout) in res {
+    // A case that hit the wall-clock watchdog is run again, alone, with a longer limit (at
+    // most six of them). Only if it does not end then either — the process sits idle (it
+    // would have been stopped by RLIMIT_CPU otherwise) although every request it made was
+    // answered or closed — is it a verdict: "processing any response ends in success or a
+    // reported error". A single timeout under load stays inconclusive.
+    let mut reruns = 0;
+    for (i, (desc, kind, timeout, _cpu, _reqs)) in res {
         rep.eval();
+        let (mut desc, mut kind) = (desc, kind);
+        let mut timeout = timeout;
+        if timeout {
+            if reruns < 6 {
+                reruns += 1;
+                let (desc2, kind2, timeout2, cpu_ms, reqs) = case(i, 60);
+                rep.eval();
+                if timeout2 {
+                    let lie = format!("{}{}", desc2.splitn(2, ':').nth(1).unwrap_or(""), if desc2.contains('+') { " (persistent)" } else { "" });
+                    let sig = format!("c15/server/{}/does not end (idle)", lie);
+                    if seen_sig.insert(sig.clone()) {
+                        rep.violation(&sig, json!({"lie": desc2, "failure": "the command did not end within 25 s in the parallel run nor within 60 s when run again alone", "cpu_ms_used": cpu_ms, "requests_made": reqs, "case": i}), json!({"engine": "server", "seed": seed}));
+                    }
+                    continue;
+                }
+                rep.count("process.server_cases_that_ended_when_run_again_alone", 1);
+                desc = desc2;
+                kind = kind2;
+                timeout = false;
+            }
+        }
         if timeout {
             rep.inconclusive("watchdog");
             continue;
